@@ -35,12 +35,16 @@ UNIT = Unit(
              "entries are replaced); hir::ImplBlock / hir::Def / hir::Fn / HirTable, HashSet<String>, IndexMap<String, FnScheme> are shims",
              "toplevel::inherent_method_overlaps is verified (whole function): `impls.iter()` is the shim entries_vec (every key that has a method is among "
              "the entries); toplevel::method_named_like_variant is verified (whole function): `env.current().enums()` is the shim EnumTable (keyed by the TEXT of "
-             "the enum's name), `variant.0 == method` is the shim string_eq_str; try_constr_name is uninterpreted; ASSUMED axiom: the table is keyed by the TEXT of a constructor name (axiom_constr_key_by_text)"],
+             "the enum's name), `variant.0 == method` is the shim string_eq_str; typer::util::try_constr_name is verified (whole function) against constr_name_of; ASSUMED axiom: the table is keyed by the TEXT of a constructor name (axiom_constr_key_by_text)"],
     items=[
         Adt(file="crates/compiler/src/tast.rs", kw="enum", name="Ty", rules=["attrs"]),
         Adt(file="crates/compiler/src/env.rs", kw="enum", name="InherentImplKey", rules=["attrs", ("strip", "tast::")]),
         Raw(path="contracts/orphan.shim.rs"),
         Raw(path="contracts/inherent.shim.rs"),
+        Fn(file="crates/compiler/src/typer/util.rs", name="try_constr_name", ret="r", rules=["attrs", ("strip", "tast::")],
+           rewrites=[(re.compile(r'("\w+")\.to_string\(\)'), r"lit_string(\1)", "*"), (re.compile(r"\.clone\(\)"), ".vclone()", "*")],
+           obligation="the constructor name of a type: the enum's / struct's own name under any number of applications; Vec; Ref; nothing else has one",
+           contract="ensures r matches Some(c) ==> constr_name_of(*ty) == Some(c@), r is None ==> constr_name_of(*ty) is None,\n decreases *ty,"),
         Fn(file=T, name="inherent_method_overlaps", ret="r", optional=True, attrs="#[verifier::loop_isolation(false)]",
            rules=["attrs", ("strip", "tast::"), ("strip", "hir::"), ("strip", "env::"), ("strip", "super::util::"), "opt_is_some_and", "iter_any"],
            pre_rewrites=[("let impls = &env.current().trait_env.inherent_impls;", "let impls = &env.current().trait_env.inherent_impls; let __ents = impls.entries_vec();", 1),
